@@ -54,6 +54,12 @@ MAPPING = r"""
    Decimal(n) / Decimal(d)   n, d : int  py_dec_div n d : res Q — the EXACT quotient (ZeroDivisionError for d = 0); the
                rounding to the 28 digits of the default context is part of py_dec_format_g (the model's dec_fallback
                does both; it is only valid, and only used, for quotients beyond the double range).
+   with localcontext() as C: C.Emax, C.Emin = MAX_EMAX, MIN_EMIN; BODY      is BODY.  Accepted in exactly this shape
+               (localcontext, MAX_EMAX, MIN_EMIN imported from decimal; C bound nowhere else and not used in BODY):
+               the widened exponent range only removes the Overflow / Underflow traps of the default context
+               (results beyond 10^999999), which the exact quotient of py_dec_div never had; precision (28 digits) and
+               rounding (half-even), which dec_fallback models, are untouched.  Any other `with`, any other context
+               attribute (prec, rounding, traps, ..), another order of the two assignments is untranslatable.
    try: A except OverflowError: B     match A with Raise OverflowError => B | other => other end
    numbers     int + - * on Z;  a // b  py_floordiv a b (ZeroDivisionError for b = 0, else Z.div: both floor);
                abs  Z.abs / Qabs;  f.numerator Qnum f;  f.denominator Zpos (Qden f);
@@ -232,7 +238,7 @@ class FnTr:
             if isinstance(n, ast.Name) and isinstance(n.ctx, (ast.Store, ast.Del)):
                 self.locals.add(n.id)
             if isinstance(n, (ast.Global, ast.Nonlocal, ast.Lambda, ast.ClassDef, ast.AsyncFunctionDef, ast.Yield,
-                              ast.YieldFrom, ast.Await, ast.NamedExpr, ast.Starred, ast.With, ast.While, ast.Delete)) \
+                              ast.YieldFrom, ast.Await, ast.NamedExpr, ast.Starred, ast.AsyncWith, ast.While, ast.Delete)) \
                     or (isinstance(n, ast.FunctionDef) and n is not node):
                 raise Untranslatable("%s inside %s" % (type(n).__name__, key))
 
@@ -277,7 +283,7 @@ class FnTr:
         if isinstance(e, ast.Name):
             if e.id in env:
                 t, k = env[e.id]
-                if k in ("FMT", "KW", "OUT") or isinstance(k, tuple):
+                if k in ("FMT", "KW", "OUT", "CTX") or isinstance(k, tuple):
                     raise Untranslatable("%s (kind %s) used as a value" % (e.id, k if isinstance(k, str) else k[0]))
                 return [], t, k
             raise Untranslatable("name %s used as a value" % e.id)
@@ -689,6 +695,8 @@ class FnTr:
             return True
         if isinstance(last, ast.If):
             return self.terminates(last.body) and bool(last.orelse) and self.terminates(last.orelse)
+        if isinstance(last, ast.With):
+            return self.terminates(last.body)
         if isinstance(last, ast.Try):
             return self.terminates(last.body) and all(self.terminates(h.body) for h in last.handlers) \
                 and not last.orelse and not last.finalbody
@@ -784,7 +792,59 @@ class FnTr:
             hb = self.block_v(s.handlers[0].body, dict(env))
             v = self.fresh()
             return "(match (%s) with\n| Raise %s => (%s)\n| %s => %s\nend)" % (tb, EXN[s.handlers[0].type.id], hb, v, v)
+        if isinstance(s, ast.With):
+            inner = self.widened_decimal_context(s, env)
+            if rest or not self.terminates(inner):
+                raise Untranslatable("with block that does not return on every path")
+            env2 = dict(env)
+            self.drop(env2, s.items[0].optional_vars.id)
+            env2[s.items[0].optional_vars.id] = (None, "CTX")
+            return "(* with localcontext(): Emax, Emin widened *)\n" + self.block_v(inner, env2)
         raise Untranslatable("statement " + type(s).__name__)
+
+    def widened_decimal_context(self, s, env):
+        """exactly  `with localcontext() as C:  C.Emax, C.Emin = MAX_EMAX, MIN_EMIN;  <statements>`  (all three names
+        imported from decimal) -> the <statements>; anything else about a `with` is untranslatable"""
+        if len(s.items) != 1 or getattr(s, "type_comment", None):
+            raise Untranslatable("with statement shape")
+        it = s.items[0]
+        c = it.context_expr
+        if not (isinstance(c, ast.Call) and isinstance(c.func, ast.Name) and not c.args and not c.keywords
+                and c.func.id not in env and self.glob(c.func.id) == ("from", "decimal", 0, "localcontext")
+                and c.func.id == "localcontext"):
+            raise Untranslatable("with of something else than decimal.localcontext()")
+        if not isinstance(it.optional_vars, ast.Name):
+            raise Untranslatable("with ... as <name> expected")
+        cv = it.optional_vars.id
+        self.check_name(cv)
+        # the context variable is bound by this with and nowhere else
+        stores = [n for n in ast.walk(self.node) if isinstance(n, ast.Name) and n.id == cv and isinstance(n.ctx, (ast.Store, ast.Del))]
+        if len(stores) != 1 or cv in [a.arg for a in self.node.args.args]:
+            raise Untranslatable("context variable %s is bound elsewhere too" % cv)
+        body = [b for b in s.body if not is_doc(b)]
+        if not body:
+            raise Untranslatable("empty with block")
+        a = body[0]
+
+        def attr(e, name):
+            return isinstance(e, ast.Attribute) and e.attr == name and isinstance(e.value, ast.Name) and e.value.id == cv
+
+        def const(e, name):
+            return isinstance(e, ast.Name) and e.id == name and e.id not in env \
+                and self.glob(name) == ("from", "decimal", 0, name)
+        if not (isinstance(a, ast.Assign) and len(a.targets) == 1 and isinstance(a.targets[0], ast.Tuple)
+                and len(a.targets[0].elts) == 2 and attr(a.targets[0].elts[0], "Emax") and attr(a.targets[0].elts[1], "Emin")
+                and isinstance(a.value, ast.Tuple) and len(a.value.elts) == 2
+                and const(a.value.elts[0], "MAX_EMAX") and const(a.value.elts[1], "MIN_EMIN")):
+            raise Untranslatable("first statement of the localcontext block is not `%s.Emax, %s.Emin = MAX_EMAX, MIN_EMIN`" % (cv, cv))
+        # the context object may not be touched again (prec, rounding, traps, .. would change the division)
+        for b in body[1:]:
+            for n in ast.walk(b):
+                if isinstance(n, ast.Name) and n.id == cv:
+                    raise Untranslatable("the decimal context %s is used after widening its exponent range" % cv)
+                if isinstance(n, ast.Name) and n.id in ("getcontext", "setcontext", "localcontext"):
+                    raise Untranslatable("decimal context access inside the localcontext block")
+        return body[1:]
 
     def same_path_isinstance(self, test, pth):
         return isinstance(test, ast.Call) and self.is_builtin(test.func, "isinstance") and len(test.args) == 2 \
